@@ -1,5 +1,6 @@
 import Pycoin.Proofs.BIP32SerPub
 import Pycoin.Props.C11
+import Pycoin.Proofs.Base58Hash
 import Pycoin.Gen.Networks
 /-!
 C09 helper lemmas: text form round trip (`hwif` / `hparse`) and the prefix table of all networks.
@@ -7,17 +8,11 @@ C09 helper lemmas: text form round trip (`hwif` / `hparse`) and the prefix table
 namespace Pycoin.BIP32
 open Pycoin Pycoin.Curve Pycoin.Addr
 
-/-- Base58Check text parses back to its payload (`C11_b58check_rt`, `C11_parse_b58_agrees`) -/
-theorem parse_b2aHashed {d t : Bytes} (h : Base58.b2aHashed d = .ok t) : Base58.parseB58DoubleSha256 t = some d := by
-  obtain ⟨s, h1, h2⟩ := Base58.C11_b58check_rt d
-  rw [h] at h1
-  injection h1 with h1
-  subst h1
-  rw [Base58.C11_parse_b58_agrees, h2]
+/-- Base58Check text parses back to its payload, for either checksum hash (`Proofs/Base58Hash.lean`) -/
+theorem parse_b2aHashed {k : HashKind} {d t : Bytes} (h : Base58.b2aHashedK k d = .ok t) :
+    Base58.parseB58HashedK k t = some d := Base58.parse_b2aK h
 
-theorem b2aHashed_ok (d : Bytes) : ∃ t, Base58.b2aHashed d = .ok t := by
-  obtain ⟨s, h1, -⟩ := Base58.C11_b58check_rt d
-  exact ⟨s, h1⟩
+theorem b2aHashed_ok (k : HashKind) (d : Bytes) : ∃ t, Base58.b2aHashedK k d = .ok t := Base58.b2aK_ok k d
 
 theorem isPrefixOf_append (p b : Bytes) : isPrefixOf p (p ++ b) = true := by
   unfold isPrefixOf; simp
@@ -29,64 +24,66 @@ theorem isPrefixOf_other {p q : Bytes} (b : Bytes) (hl : p.length = q.length) (h
   exact fun h => hne h.symm
 
 /-- what the text round trip needs of one network and one prefix kind: the network defines both prefixes or neither;
-the closures `bipNN_as_string` prepend the prefixes `ParseAPI` looks for; both are 4 bytes long (`deserialize` reads
-fixed offsets).  Distinctness of the two is *not* needed: `deserialize` tells private from public by byte 45. -/
+the closures `bipNN_as_string` prepend the prefixes `ParseAPI` looks for, under the checksum hash `parse_b58_hashed`
+accepts; both are 4 bytes long (`deserialize` reads fixed offsets).  Distinctness of the two is *not* needed:
+`deserialize` tells private from public by byte 45. -/
 def prefixesOk (net : Network) (kind : Kind) : Bool :=
   match parsePrefix net kind true, parsePrefix net kind false with
   | some a, some b =>
-    outPrefix net kind true == some a && outPrefix net kind false == some b && a.length == 4 && b.length == 4
+    outPrefix net kind true == some a && outPrefix net kind false == some b && a.length == 4 && b.length == 4 &&
+      decide (outHash net kind = net.hashParse)
   | none, none => true
   | _, _ => false
 
 theorem prefixesOk_spec {net : Network} {kind : Kind} (h : prefixesOk net kind = true) {a : Bytes}
     (ha : parsePrefix net kind true = some a) :
     ∃ b, parsePrefix net kind false = some b ∧ outPrefix net kind true = some a ∧ outPrefix net kind false = some b ∧
-      a.length = 4 ∧ b.length = 4 := by
+      a.length = 4 ∧ b.length = 4 ∧ outHash net kind = net.hashParse := by
   unfold prefixesOk at h
   rw [ha] at h
   cases hb : parsePrefix net kind false with
   | none => simp [hb] at h
   | some b =>
-    simp only [hb, Bool.and_eq_true, beq_iff_eq] at h
-    obtain ⟨⟨⟨h1, h2⟩, h3⟩, h4⟩ := h
-    exact ⟨b, rfl, h1, h2, h3, h4⟩
+    simp only [hb, Bool.and_eq_true, beq_iff_eq, decide_eq_true_eq] at h
+    obtain ⟨⟨⟨⟨h1, h2⟩, h3⟩, h4⟩, h5⟩ := h
+    exact ⟨b, rfl, h1, h2, h3, h4, h5⟩
 
 variable {g : Gen}
 
 /-- text round trip of a private node on a network whose prefixes are consistent -/
-theorem hwif_rt_private (net : Network) (hnet : net.b58DoubleSha = true) (n : Node) (se : Int) (hv : n.Valid g)
+theorem hwif_rt_private (net : Network) (n : Node) (se : Int) (hv : n.Valid g)
     (hse : n.secretExponent = some se) (hd : n.depth ≤ 255) (hi : n.childIndex < 2 ^ 32) (hn : g.c.n ≤ 2 ^ 256)
     (hok : prefixesOk net n.kind = true) {a : Bytes} (ha : parsePrefix net n.kind true = some a) :
-    ∃ text, hwif net n true = some (.ok text) ∧ parseBip g net n.kind text = .ok (some n) := by
-  obtain ⟨b, hb, oa, ob, la, lb⟩ := prefixesOk_spec hok ha
+    ∃ text, hwif net n true = .ok text ∧ parseBip g net n.kind text = .ok (some n) := by
+  obtain ⟨b, hb, oa, ob, la, lb, hh⟩ := prefixesOk_spec hok ha
   obtain ⟨blob, s1, s2, -, s4⟩ := serialize_rt_private g n se hv hse hd hi hn a la (some true) (Or.inl rfl)
-  obtain ⟨text, ht⟩ := b2aHashed_ok (a ++ blob)
+  obtain ⟨text, ht⟩ := b2aHashed_ok (outHash net n.kind) (a ++ blob)
   refine ⟨text, ?_, ?_⟩
   · unfold hwif
-    simp [hnet, s1, oa, ht]
+    simp [s1, oa, ht]
   · unfold parseBip hparse
-    rw [parse_b2aHashed ht, ha]
+    rw [← hh, parse_b2aHashed ht, ha]
     simp only [isPrefixOf_append, Bool.not_true, Bool.false_eq_true, if_false]
     have : ¬ (a ++ blob).length ≠ 78 := by simp [la, s2]
     rw [if_neg this, s4]
 
 /-- text round trip of the public form of a node -/
 theorem hwif_rt_public [Good g.c] (h4 : g.c.p % 4 = 3) (hbc : byteCount g.c.p = 32)
-    (net : Network) (hnet : net.b58DoubleSha = true) (n : Node) (hv : n.Valid g)
+    (net : Network) (n : Node) (hv : n.Valid g)
     (hd : n.depth ≤ 255) (hi : n.childIndex < 2 ^ 32)
     (hx0 : 0 ≤ n.publicPair.1) (hx1 : n.publicPair.1 < 2 ^ 256) (hxp : n.publicPair.1 < g.c.p) (hy0 : 0 < n.publicPair.2)
     (hy1 : n.publicPair.2 < g.c.p) (hok : prefixesOk net n.kind = true) {a : Bytes} (ha : parsePrefix net n.kind true = some a) :
-    ∃ text, hwif net n false = some (.ok text) ∧
+    ∃ text, hwif net n false = .ok text ∧
       parseBip g net n.kind text = .ok (some { n with secretExponent := none }) := by
-  obtain ⟨b, hb, oa, ob, la, lb⟩ := prefixesOk_spec hok ha
+  obtain ⟨b, hb, oa, ob, la, lb, hh⟩ := prefixesOk_spec hok ha
   obtain ⟨blob, s1, s2, -, s4⟩ := serialize_rt_public h4 hbc n hv hd hi hx0 hx1 hxp hy0 hy1 b lb
-  obtain ⟨text, ht⟩ := b2aHashed_ok (b ++ blob)
+  obtain ⟨text, ht⟩ := b2aHashed_ok (outHash net n.kind) (b ++ blob)
   refine ⟨text, ?_, ?_⟩
   · unfold hwif
-    simp [hnet, s1, ob, ht]
+    simp [s1, ob, ht]
   · have hlen : ¬ (b ++ blob).length ≠ 78 := by simp [lb, s2]
     unfold parseBip hparse
-    rw [parse_b2aHashed ht, ha, hb]
+    rw [← hh, parse_b2aHashed ht, ha, hb]
     by_cases hab : a = b
     · -- the two prefixes coincide: the private attempt already succeeds, with the public node (byte 45 decides)
       subst hab
@@ -96,9 +93,10 @@ theorem hwif_rt_public [Good g.c] (h4 : g.c.p % 4 = 3) (hbc : byteCount g.c.p = 
         Bool.false_eq_true, if_false]
       rw [if_neg hlen, s4]
 
-/-- the whole generated table: on every network with double-SHA-256 Base58Check and for each of bip32/bip49/bip84,
-either both prefixes are absent, or the producing closures and the parser agree on two 4-byte prefixes -/
-theorem prefix_table : ∀ net ∈ Pycoin.Gen.Networks.all, net.b58DoubleSha = true →
+/-- the whole generated table: on EVERY network (Groestlcoin family included) and for each of bip32/bip49/bip84,
+either both prefixes are absent, or the producing closures and the parser agree on two 4-byte prefixes and on the
+checksum hash -/
+theorem prefix_table : ∀ net ∈ Pycoin.Gen.Networks.all,
     prefixesOk net .bip32 = true ∧ prefixesOk net .bip49 = true ∧ prefixesOk net .bip84 = true := by
   decide +kernel
 
